@@ -26,3 +26,21 @@ func ZZ_C09_goldilocks_FromBytes_canonical() {
 		zzAssert(len(in) == 57 && zzBytesEq(out[:], in), "accepted input re-serialises to exactly the parsed bytes")
 	}
 }
+
+// the y-coordinate range check of FromBytes equals integer comparison with p, for every 56-byte
+// string (so y = p, p+1, ... are refused: their re-encoding would differ from the input)
+//
+//zz: prop=C09 tier=quick backend=lia timeout=120
+func ZZ_C09_goldilocks_isLessThan_p() {
+	y := make([]byte, 56)
+	zzFill("y", y)
+	p := [56]byte{}
+	for i := range p {
+		p[i] = 0xff
+	}
+	p[28] = 0xfe
+	zzAssert(zzIff(isLessThan(y, p[:]), zzWLt(zzWLE(y), zzWConst("0xfffffffffffffffffffffffffffffffffffffffffffffffffffffffeffffffffffffffffffffffffffffffffffffffffffffffffffffffff"))), "isLessThan(y, p) iff y < p")
+}
+
+//zz: prop=C05 tier=quick backend=lia timeout=120
+func ZZ_C05_goldilocks_isLessThan_p() { ZZ_C09_goldilocks_isLessThan_p() }
